@@ -560,11 +560,37 @@ func runC13(e *Engine, r *Report, tier string) {
 							if st, ok := ref.(*ssa.Store); ok && st.Addr == ssa.Value(al) {
 								walkOut(st.Val, d+1)
 							}
+							// an array local filled element by element (the variadic argument of append)
+							if ia, ok := ref.(*ssa.IndexAddr); ok {
+								for _, r2 := range *ia.Referrers() {
+									if st, ok := r2.(*ssa.Store); ok && st.Addr == ssa.Value(ia) {
+										walkOut(st.Val, d+1)
+									}
+								}
+							}
 						}
 					}
+					if ia, ok := x.X.(*ssa.IndexAddr); ok {
+						walkOut(ia.X, d+1) // an element of a slice: where the slice comes from
+					}
+				case *ssa.Alloc:
+					for _, ref := range *x.Referrers() {
+						if ia, ok := ref.(*ssa.IndexAddr); ok {
+							for _, r2 := range *ia.Referrers() {
+								if st, ok := r2.(*ssa.Store); ok && st.Addr == ssa.Value(ia) {
+									walkOut(st.Val, d+1)
+								}
+							}
+						}
+					}
+				case *ssa.Index:
+					walkOut(x.X, d+1)
 				case *ssa.Call:
 					if b, ok := x.Call.Value.(*ssa.Builtin); ok && b.Name() == "append" {
-						walkOut(x.Call.Args[0], d+1)
+						// the slice appended to and the elements appended (a filter loop copies the kept coins one by one)
+						for _, a := range x.Call.Args {
+							walkOut(a, d+1)
+						}
 						return
 					}
 					switch callName(x) {
